@@ -13,14 +13,15 @@ import (
 
 // choice is one stimulus of the harness; a scenario is a list of them and replays exactly
 type choice struct {
-	C  string `json:"c"`            // acq | rel | cln | eff | ret | adv | advx (advance while storage calls are held) | ext
-	P  int    `json:"p,omitempty"`  // participant (acq rel cln)
-	K  uint32 `json:"k,omitempty"`  // key (acq rel ext)
-	V  int    `json:"v,omitempty"`  // value (acq)
-	D  int    `json:"d,omitempty"`  // leadership duration, seconds (acq)
-	T  string `json:"t,omitempty"`  // thread: a<participant> | g<context> (eff ret)
-	O  string `json:"o,omitempty"`  // outcome of the storage call: ok | errb | erra | false (eff)
-	Ns int64  `json:"ns,omitempty"` // clock advance, clipped to the next armed timer; 0 = to the next timer (adv, advx)
+	C  string `json:"c"`              // acq | rel | cln | eff | ret | adv | advx (advance while storage calls are held) | ext
+	P  int    `json:"p,omitempty"`    // participant (acq rel cln)
+	K  uint32 `json:"k,omitempty"`    // key (acq rel ext)
+	V  int    `json:"v,omitempty"`    // value (acq)
+	D  int    `json:"d,omitempty"`    // leadership duration, seconds (acq)
+	T  string `json:"t,omitempty"`    // thread: a<participant> | g<context> (eff ret)
+	O  string `json:"o,omitempty"`    // outcome of the storage call: ok | errb | erra | false (eff)
+	Ns int64  `json:"ns,omitempty"`   // clock advance, clipped to the next armed timer; 0 = to the next timer (adv, advx)
+	Ov bool   `json:"over,omitempty"` // advx: do not clip: the clock overtakes due timers, which are then delivered late
 }
 
 type scenario struct {
@@ -351,7 +352,7 @@ func (e *exec) enabled(c choice) bool {
 	case "adv":
 		return e.allIdle() && c.Ns >= 0
 	case "advx":
-		return c.Ns >= 0 && !e.allIdle()
+		return c.Ns >= 0 && (c.Ov || !e.allIdle())
 	case "ext":
 		return true
 	}
@@ -619,7 +620,7 @@ func (e *exec) apply(c choice) bool {
 		e.emit(fmt.Sprintf("Advance %d", dt), "ONone")
 	case "advx":
 		dt := c.Ns
-		if next, ok := e.r.clock.NextTimer(); ok && (dt == 0 || int64(next) < dt) {
+		if next, ok := e.r.clock.NextTimer(); ok && (dt == 0 || (int64(next) < dt && !c.Ov)) {
 			dt = int64(next)
 		}
 		if dt <= 0 {
